@@ -170,6 +170,9 @@ class Run:
             txt = strip_comments((COQ / f).read_text())
             for m in FORBIDDEN.finditer(txt):
                 bad.append("%s: %s" % (f, m.group(0)))
+        for f in files:
+            for what in toplevel_assumptions(strip_comments((COQ / f).read_text())):
+                bad.append("%s: %s outside a Section (declares an axiom)" % (f, what))
         n_obl = 0
         for f in files:
             txt = strip_comments((COQ / f).read_text())
@@ -306,9 +309,13 @@ class Run:
         anything 'other' -> VIOLATION (a different failure on the witness)
         returns {id: outcome}"""
         res = {}
+        self.findings_not_replayed = []
+        self.findings_now_correct = []
         for f in self.findings():
             h = handlers.get(f["id"])
             if h is None:
+                # listed for this property but replayed by another property's check only: say so in the evidence
+                self.findings_not_replayed.append(f["id"])
                 continue
             try:
                 o = h(f)
@@ -322,6 +329,8 @@ class Run:
                     self.known_finding(f["id"], f["what"])
             elif o != "correct":
                 self.violation({"kind": "witness-of-known-finding-fails-differently", "finding": f, "observed": o})
+            elif f.get("status") != "fixed":
+                self.findings_now_correct.append(f["id"])     # an open finding that no longer reproduces
         self.findings_outcome = res
         return res
 
@@ -342,6 +351,11 @@ class Run:
             cov.setdefault("l1_probe_skipped", self.l1_skipped)
         if getattr(self, "findings_outcome", None) is not None:
             cov.setdefault("findings_replayed", self.findings_outcome)
+            cov.setdefault("findings_listed_but_replayed_by_other_checks_only", getattr(self, "findings_not_replayed", []))
+            cov.setdefault("open_findings_that_no_longer_reproduce", getattr(self, "findings_now_correct", []))
+        if self.proof_ok is False and not self.violations:
+            # a broken proof/audit with no concrete failing input found by the caller is still a violation
+            self.proof_failure_violation()
         ev = {
             "property_id": self.prop,
             "tier": self.tier,
@@ -377,9 +391,32 @@ def strip_comments(txt):
     return "".join(out)
 
 
+def toplevel_assumptions(txt):
+    """Variable(s)/Hypothesis(-es)/Context commands that are not inside a Section"""
+    depth, res = 0, []
+    for m in re.finditer(r"(?m)^\s*(?:Local\s+|Global\s+|#\[[^\]]*\]\s*)?(Section|End|Variable|Variables|Hypothesis|Hypotheses|Context)\b\s*([\w']*)", txt):
+        kw, name = m.group(1), m.group(2)
+        if kw == "Section":
+            depth += 1
+            sections = getattr(toplevel_assumptions, "_s", [])
+            sections.append(name)
+            toplevel_assumptions._s = sections
+        elif kw == "End":
+            sections = getattr(toplevel_assumptions, "_s", [])
+            if sections and sections[-1] == name:
+                sections.pop()
+                depth -= 1
+        elif depth <= 0:
+            res.append(kw + " " + name)
+    toplevel_assumptions._s = []
+    return res
+
+
 def gen_coqproject():
     head = (COQ / "_CoqProject.head").read_text()
-    files = sorted(str(p.relative_to(COQ)) for p in COQ.rglob("*.v"))
+    # coq/Bridge/*.v need the file generated by the Go->Gallina translator (-Q <scratch>/gen ShootGen): they are
+    # compiled by harness/translate_tie.py, not by the project make
+    files = sorted(str(p.relative_to(COQ)) for p in COQ.rglob("*.v") if p.relative_to(COQ).parts[0] != "Bridge")
     txt = head + "\n".join(files) + "\n"
     p = COQ / "_CoqProject"
     if not p.exists() or p.read_text() != txt:
@@ -393,7 +430,10 @@ def parse_coq_list_pairs(out, name):
     if not m:
         raise CheckBroken("cannot parse coq output for %s: %s" % (name, flat[:2000]))
     body = m.group(1)
-    return [(int(a), int(b)) for a, b in re.findall(r"\((\d+)%?N?, (\d+)%?N?\)", body)]
+    pairs = [(int(a), int(b)) for a, b in re.findall(r"\((\d+)%?N?, (\d+)%?N?\)", body)]
+    if body.count("(") != len(pairs):
+        raise CheckBroken("unparsed entries in the coq output for %s: %s" % (name, body[:1500]))
+    return pairs
 
 
 def coqchk(run, files):
